@@ -25,9 +25,9 @@ correspond(chk, tier)
     joining the orphan threads); every callback ran exactly once for every trial whose exception did not propagate (up to
     the first raising callback), never otherwise.
 
-The main thread's *timeout* break has no transition of its own in `Pool.step` (the model's loop head knows the stop flag
-and n_trials).  It is the same `break` as the n_trials one, so a run whose submit loop ended on the timeout after m submits
-is replayed as an execution with n_trials = m (`n_eff`); the workers' own timeout test is `PoolRun.Job.elapsed`.
+Clock: `optuna.study._optimize.datetime` is proxied for the run, so the recorder SEES every clock reading: a main-thread
+reading with `(now - time_start).total_seconds() > timeout` is the model's `timeout` event (the submit loop's third `break`),
+a worker's first reading with `>= timeout` is `PoolRun.Job.elapsed` of its job.  Timeout runs replay as what they are.
 """
 from __future__ import annotations
 
@@ -94,7 +94,7 @@ def gen_job(r: random.Random, n_cbs: int, calm: bool) -> dict[str, Any]:
 
 def gen_case(r: random.Random, mode: str = "normal") -> dict[str, Any]:
     k = r.choice([2, 3, 4])
-    shape = r.choice(["lt", "eq", "gt", "gt", "none"]) if mode == "normal" else r.choice(["eq", "gt", "gt"])
+    shape = r.choice(["lt", "eq", "gt", "gt", "none", "none"]) if mode == "normal" else r.choice(["eq", "gt", "gt"])
     timeout = None
     if shape == "lt":
         n: int | None = r.randrange(1, k)
@@ -112,9 +112,15 @@ def gen_case(r: random.Random, mode: str = "normal") -> dict[str, Any]:
     case = {"kind": "poolrun", "mode": mode, "k": k, "n_trials": n, "timeout": timeout, "n_cbs": n_cbs,
             "catch": sorted(set(r.choice(sorted(CLS)) for _ in range(r.choice([0, 1, 1, 2])))), "jobs": jobs}
     if shape == "none":
+        # nothing but the clock ends this run: no stop(), every raised class is in `catch`
         for j in jobs:
             j["sleep"] = max(j["sleep"], 0.02)
             j["stop"] = False
+            for c in j["cbs"]:
+                c["stop"] = False
+                c["raises"] = None
+            if j["end"] == "raise":
+                case["catch"] = sorted(set(case["catch"]) | {j["cls"]})
     if mode == "interrupt-wait":
         for j in jobs:
             j["sleep"] = max(j["sleep"], 0.03)
@@ -164,6 +170,10 @@ class Run:
         self.cbs_of: dict[int, list[int]] = collections.defaultdict(list)
         self.cb_log: list[list[int]] = []
         self.in_wait = threading.Event()
+        self.t_start: Any = None
+        self.main_timed = False
+        self.worker_timed: dict[int, bool] = {}
+        self.main_ident = threading.get_ident()
         self.exc: BaseException | None = None
         self.exc_where: list[str] = []
         self.notes: list[str] = []
@@ -179,6 +189,21 @@ class Run:
     def log(self, ev: dict[str, Any]) -> None:
         with self.lock:
             self.events.append(ev)
+
+    def on_clock(self, t: Any) -> None:
+        """a reading of `datetime.datetime.now()` inside optuna.study._optimize"""
+        timeout = self.case["timeout"]
+        with self.lock:
+            i = getattr(self.tls, "future", None)
+            if i is None and threading.get_ident() == self.main_ident:
+                if self.t_start is None:
+                    self.t_start = t  # `time_start = datetime.datetime.now()`
+                elif timeout is not None and not self.main_timed and (t - self.t_start).total_seconds() > timeout:
+                    self.main_timed = True
+                    self.events.append({"e": "timeout"})
+            elif i is not None and i not in self.worker_timed and self.t_start is not None:
+                # the worker's loop-head test (`elapsed_seconds >= timeout`)
+                self.worker_timed[i] = timeout is not None and (t - self.t_start).total_seconds() >= timeout
 
     # ---- live-object wrappers -------------------------------------------------------------------
     def _wrap_study(self) -> None:
@@ -325,13 +350,27 @@ class Run:
             run.log({"e": "waitFirst", "c": sorted(fut_ids[f] for f in res.done)} if return_when == FIRST_COMPLETED else {"e": "waitAll"})
             return res
 
+        import datetime as real_dt
+
+        class _DT:
+            @staticmethod
+            def now(tz=None):  # type: ignore[no-untyped-def]
+                t = real_dt.datetime.now()
+                run.on_clock(t)
+                return t
+
+        class _ClockModule:
+            datetime = _DT
+            timedelta = real_dt.timedelta
+
         cbs = [self.make_cb(j) for j in range(case["n_cbs"])]
         before = set(threading.enumerate())
-        saved = (om.ThreadPoolExecutor, om.wait)
+        saved = (om.ThreadPoolExecutor, om.wait, om.datetime)
         try:
             try:
                 om.ThreadPoolExecutor = TracingExecutor  # type: ignore[misc]
                 om.wait = traced_wait  # type: ignore[assignment]
+                om.datetime = _ClockModule  # type: ignore[assignment]
                 with warnings.catch_warnings():
                     warnings.simplefilter("ignore")
                     try:
@@ -348,7 +387,7 @@ class Run:
                 if not hasattr(self, "at_exit"):
                     self.at_exit = [int(t.state) for t in self.study.get_trials(deepcopy=False)]
         finally:
-            om.ThreadPoolExecutor, om.wait = saved  # type: ignore[misc,assignment]
+            om.ThreadPoolExecutor, om.wait, om.datetime = saved  # type: ignore[misc,assignment]
         self.orphans = [t for t in threading.enumerate() if t not in before and t is not threading.current_thread()]
         for t in self.orphans:
             t.join(10)
@@ -357,7 +396,7 @@ class Run:
             evs = self.events
             if isinstance(self.exc, KeyboardInterrupt) and not any(e["e"] == "interrupt" for e in evs):
                 # raised in the main thread outside `wait`: no main-thread statement of the block ran after it
-                last = max([n for n, e in enumerate(evs) if e["e"] in ("submit", "waitFirst", "waitAll")], default=-1)
+                last = max([n for n, e in enumerate(evs) if e["e"] in ("submit", "waitFirst", "waitAll", "timeout")], default=-1)
                 evs.insert(last + 1, {"e": "interrupt", "c": KBD, "where": self.exc_where})
             evs.append({"e": "exit", "r": cls_of(self.exc)})
 
@@ -381,20 +420,10 @@ class Run:
     def request(self) -> dict[str, Any]:
         case = self.case
         evs = self.events
-        n_eff = case["n_trials"]
-        if case["timeout"] is not None and any(e["e"] == "waitAll" for e in evs):
-            at = next(n for n, e in enumerate(evs) if e["e"] == "waitAll")
-            stopped = any(e["e"] == "stop" for e in evs[:at])
-            if not stopped and (n_eff is None or self.n_futures < n_eff):
-                n_eff = self.n_futures  # the submit loop ended on the timeout: the same `break` as n_trials = submitted
-        jobs = []
-        for i in range(self.n_futures):
-            b = self.begin_ev.get(i)
-            timed_out = b is not None and not b["stopRead"] and b["t"] is None
-            jobs.append({"plan": self.model_plan(i), "elapsed": 1 if timed_out else 0})
+        jobs = [{"plan": self.model_plan(i), "elapsed": 1 if self.worker_timed.get(i) else 0} for i in range(self.n_futures)]
         trials = [{"state": int(t.state), "values": None if t.values is None else [xval(x) for x in t.values]}
                   for t in self.study.get_trials(deepcopy=False)]
-        return {"cfg": {"nObj": 1, "catch": ["user:%d" % CLS[c] for c in case["catch"]]}, "k": case["k"], "n": n_eff,
+        return {"cfg": {"nObj": 1, "catch": ["user:%d" % CLS[c] for c in case["catch"]]}, "k": case["k"], "n": case["n_trials"],
                 "timeout": None if case["timeout"] is None else 1, "joins": True, "jobs": jobs,
                 "events": [{k: v for k, v in e.items() if k != "where"} for e in evs],
                 "final": {"trials": trials, "cbLog": self.cb_log, "submitted": self.n_futures}}
@@ -413,6 +442,18 @@ def oracle(run: Run) -> list[dict[str, Any]]:
     fails = []
     how = "raised %s" % type(run.exc).__name__ if run.exc is not None else "returned"
     observation = run.case["mode"] == "interrupt-submit"
+    # A main-thread KeyboardInterrupt delivered by the harness (either interrupt mode; under load the "wait" variant can land in
+    # executor.submit too) that leaves a started worker un-joined is CPython's ThreadPoolExecutor behaviour: the trial is RUNNING
+    # when optimize raises and is finished by the orphan worker shortly after.  Recorded as known finding F42 with its own
+    # signature; the plain oracle then looks at the states after the orphan threads were joined.
+    orphan = run.case["mode"] in ("interrupt-submit", "interrupt-wait") and isinstance(run.exc, KeyboardInterrupt) and \
+        (bool(run.orphans) or any(st == 0 for st in run.at_exit))
+    if orphan and any(st == 0 for st in run.at_exit):
+        fails.append({"sig": sig("trial-left-running", "poolrun-interrupt-orphan"),
+                      "msg": "[poolrun] KeyboardInterrupt in the main thread of optimize(n_jobs=%d) (it landed in %s): optimize raised while trial(s) %s were still RUNNING "
+                             "(%d worker thread(s) not joined by ThreadPoolExecutor.__exit__); states after joining them: %s" % (
+                                 run.case["k"], "/".join(run.exc_where[-3:]) or "?", [t for t, st in enumerate(run.at_exit) if st == 0], len(run.orphans), run.after_join)})
+    observation = observation or orphan
     snap = run.after_join if observation else run.at_exit
     for t, st in enumerate(snap):
         if st == 0:
@@ -459,7 +500,7 @@ def check_case(case: dict[str, Any], drv: core.Driver) -> dict[str, Any]:
     n = case["n_trials"]
     tags.add("n:" + ("none" if n is None else "lt" if n < case["k"] else "eq" if n == case["k"] else "gt"))
     for e in run.events:
-        if e["e"] in ("stop", "waitFirst", "interrupt"):
+        if e["e"] in ("stop", "waitFirst", "interrupt", "timeout"):
             tags.add("ev:" + e["e"])
         if e["e"] == "begin" and e["t"] is None:
             tags.add("ev:begin-no-trial")
@@ -474,6 +515,9 @@ def check_case(case: dict[str, Any], drv: core.Driver) -> dict[str, Any]:
                       "terminal_after_join": not any(s == 0 for s in run.after_join)}
         if res["obs"]["running_at_raise"] or run.orphans:
             return res  # CPython left a worker un-joined: outside the model (Params.joins), recorded, not replayed
+    if case["mode"] == "interrupt-wait" and isinstance(run.exc, KeyboardInterrupt) and (run.orphans or any(s_ == 0 for s_ in run.at_exit)):
+        res["tags"].append("interrupt-wait-landed-in-submit")
+        return res  # the same, when the "wait" variant's signal was delivered a moment later than intended
     m = drv.ask(run.request())
     if m.get("ok"):
         if case["mode"] == "interrupt-wait" and not m.get("interrupted"):
@@ -573,7 +617,7 @@ def correspond(chk: core.Check, tier: str) -> None:
                            "inside ThreadPoolExecutor.submit may leave a worker that __exit__ does not join (CPython; counted in poolrun_interrupt_submit)")
     chk.trusted.append("verif/props/c02_poolrun.py: recorder (property on the study's _stop_flag, wrappers around the executor's submit, "
                        "concurrent.futures.wait, the submitted function and storage.create_new_trial), abstraction of the scripted objectives into TrialPlans, "
-                       "n_eff (a submit loop ended by the timeout is replayed as n_trials = submitted); lean/Driver/Sub/PoolRun.lean (comparison code)")
+                       "the proxy of optuna.study._optimize.datetime (clock readings -> `timeout` event / Job.elapsed); lean/Driver/Sub/PoolRun.lean (comparison code)")
 
 
 if __name__ == "__main__":  # ad-hoc: python -m verif.props.c02_poolrun [seed]
